@@ -236,6 +236,13 @@ FORBIDDEN = {
 }
 
 
+# programs that ordinary Python evaluation rejects must not compile to a value
+INVALID = {
+    "float_index": HDR + "@constexpr\ndef squares(n):\n    return [i * i for i in range(n)]\n\ndb.Setting = squares(6)[2]\ndb.Mode = squares(6)[7 / 2]\n",
+    "index_out_of_range": HDR + "@constexpr\ndef squares(n):\n    return [i * i for i in range(n)]\n\ndb.Setting = squares(3)[5]\n",
+    "raises": HDR + "@constexpr\ndef inv(n):\n    return 1 / n\n\ndb.Setting = inv(0)\n",
+}
+
 _patched = False
 
 
@@ -339,8 +346,16 @@ def run(tier: str) -> int:
         if cap.ok:
             path = e1.save_replay(PROP, dict(property=PROP, kind="closed", name=f"forbidden:{kname}", sources=src, code=cap.code))
             rep.violation(f"constexpr body containing {kname} was not rejected", path)
+    inval = {}
+    for kname, src in INVALID.items():
+        cap = comp.compile_capture(src, append_version=False)
+        inval[kname] = "rejected" if not cap.ok else "compiled"
+        if cap.ok:
+            path = e1.save_replay(PROP, dict(property=PROP, kind="closed", name=f"invalid:{kname}", sources=src, code=cap.code))
+            rep.violation(f"a constexpr use that raises under ordinary Python evaluation ({kname}) was replaced by a value", path)
     tot = base.solver_totals(results)
     rep.coverage = dict(
+        invalid_programs=inval,
         programs=programs,
         disagreements_checked=sum(len(r.get("divergences", [])) + r.get("spurious", 0) for r in results),
         samples=[dict(name=items[0]["name"], source=items[0]["sources"])],
